@@ -368,6 +368,7 @@ class C02(Check):
         return fails
 
     crash_total = 0
+    per_case_timeout = 3      # a case takes milliseconds; a corrupted chain can make the code loop for ever
 
     def run_impl(self, cases, tag='impl'):
         # chunks of 350 cases: a broken tree may crash on most cases, and the shared runner gives up after 400
